@@ -528,6 +528,24 @@ def witness_cases():
              ("revfb", "rv5", 1), ("reverser", "rv5", "b6"), ("revfb", "rv5", 1), ("reverser", "rv5", "b1")]
     return cfg, steps
 
+def group_cases():
+    """one train with a function on the first and the last bit of every function group (and bit 30): within each group the
+    last bit is switched on first, then the others on and off again - every message must carry the bits already on"""
+    bits = [0, 4, 8, 11, 12, 15, 16, 23, 24, 30, 31]
+    cfg = {"boards": [{"id": "b1", "uid": [0xDA, 0, 0x0D, 0x68, 0, 1, 0xEE], "pts": [], "dpts": [], "sigs": [], "dsigs": [], "pers": [], "revs": [], "segs": []}],
+           "trains": [{"id": "tr20", "addrh": 0x02, "addrl": 0x45, "steps": 28, "calib": None, "pers": [["tp%d" % (21 + i), b] for i, b in enumerate(bits)]}]}
+    name = {b: "tp%d" % (21 + i) for i, b in enumerate(bits)}
+    steps = [("connect", 0, 0, 0, 0, hexs(cfg["boards"][0]["uid"]))]
+    for grp in ([0, 4], [8, 11], [12, 15], [16, 23], [24, 30, 31]):
+        order = list(reversed(grp))
+        for b in order: steps.append(("tper", "tr20", name[b], 1, "b1"))
+        steps.append(("speed", "tr20", 9, "b1"))
+        for b in grp[:-1]: steps.append(("tper", "tr20", name[b], 0, "b1"))
+        for b in grp[:-1]: steps.append(("tper", "tr20", name[b], 1, "b1"))
+        steps.append(("tper", "tr20", name[grp[-1]], 0, "b1"))
+        steps.append(("tper", "tr20", name[grp[0]], 0, "b1"))
+    return cfg, steps
+
 # ------------------------------------------------------------------ running
 def run_one(exe, md, cfg, steps, tag):
     d = vlib.mktmp("c9cfg")
@@ -609,7 +627,7 @@ def run(ck):
     cdir, ok = vlib.proof_phase(ck, "Properties_C09.v")
     exe = vlib.build_harness(); md = vlib.build_model_driver(cdir, "_C09")
     r = Rng(ck.seed).fork("C09")
-    cases = [("witness",) + witness_cases()]
+    cases = [("witness",) + witness_cases(), ("groups",) + group_cases()]
     n_rand = 48 if quick else 1500
     for i in range(n_rand):
         profile = ["mix", "mix", "clean", "bits", "sweep", "mix"][i % 6]
